@@ -79,10 +79,25 @@ Fixpoint vsrun (l : list velem) (h : list vop) : list velem * list (vobs N) :=
   | o :: r => let (l1, ob) := vsstep l o in let (l2, obs) := vsrun l1 r in (l2, ob :: obs)
   end.
 
-(* well-formed operation for element size os: every element handed in is a block of exactly os bytes *)
+(* ---- what the theorems say about a model state ---- *)
+Definition vint (z : Z) : Prop := (- 2 ^ 31 <= z < 2 ^ 31)%Z.                       (* the range of a C int *)
+Definition vcells (l : list velem) : list cell := map VByte (concat l).             (* the elements laid out back to back *)
+(* shape of a vector: positive element size, num <= max, a block of exactly max*objsize cells (NULL iff max = 0) *)
+Definition vinv (s : vec) : Prop :=
+  1 <= vobjsize s /\ vnum s <= vmax s /\ (vpol s = VLinear -> 1 <= vinitnum s) /\
+  match vdata s with Some b => length b = vmax s * vobjsize s | None => vmax s = 0 end.
+(* the vector holds exactly the list l: num elements of objsize bytes, and the first num*objsize cells of the block are
+   the (defined) bytes of l in order *)
+Definition vrep (s : vec) (l : list velem) : Prop :=
+  length l = vnum s /\ Forall (fun e => length e = vobjsize s) l /\
+  match vdata s with Some b => firstn (vnum s * vobjsize s) b = vcells l | None => l = [] end.
+
+(* well-formed operation for element size os: every element handed in is a block of exactly os bytes, every index is an int *)
 Definition vwf_op (os : nat) (o : vop) : Prop :=
   match o with
-  | VAddAt _ (Some d) | VAddFirst d | VAddLast d | VSetAt _ d | VSetFirst d | VSetLast d => length d = os
+  | VAddAt i (Some d) | VSetAt i d => length d = os /\ vint i
+  | VAddFirst d | VAddLast d | VSetFirst d | VSetLast d => length d = os
+  | VAddAt i None | VGetAt i | VPopAt i | VRemoveAt i | VWalk i _ => vint i
   | _ => True
   end.
 (* the `int` bound: every state of the history holds fewer than 2^31 elements *)
